@@ -109,7 +109,7 @@ CHECKS.update({
         ref="DESIGN.md §4 C13",
     ),
     "C15": dict(
-        text="Lean theorems: for any scalar-value string and any recursion budget the parser returns a filter or FilterSyntaxError(offset, length) "
+        text="Lean theorems: for any string of code points (scalar values and the surrogate-escape code points U+DC80..DCFF) and any recursion budget the parser returns a filter or FilterSyntaxError(offset, length) "
              "with offset+length inside the UTF-8 of the stripped input; scan loops never exhaust their fuel and RecursionError never escapes; "
              "whatever is accepted has pattern-valid attributes/rules, lies in the text domain of C13 and therefore re-parses from its own text. "
              "Known finding F-C15d (single-arc numeric OIDs accepted; pinned by the repo's tests).",
@@ -137,7 +137,8 @@ CHECKS.update({
              "and local to the session's registry; a registered session decodes the custom types (C01 instance), an unregistered one treats the same "
              "bytes as an unknown filter / credential choice or as a generic control. The substance — no shared mutable state between Python "
              "objects — cannot be a theorem about a value-level model and is carried by translation validation: interleaved live sessions vs the same "
-             "histories alone in fresh interpreters vs the model, plus a direct test of the registration clause in both orders.",
+             "histories alone in fresh interpreters vs the model, re-serialisation of every retained result at the end of an interleaved run, pairs of "
+             "sessions decoding variants of one message (shared decoded objects), plus a direct test of the registration clause in both orders.",
         technique="Lean 4 proof of the model-level statements + translation validation (interleaved vs isolated runs vs model) for the isolation itself",
         ref="DESIGN.md §4 C19",
     ),
@@ -161,16 +162,20 @@ CHECKS.update({
         text="Lean theorems: for every valid object-class, attribute-type and DIT-content-rule description (numeric OID, descriptor names, OID "
              "lists, any non-empty description / extension strings of any code points, all flags, kind, usage, syntax length) the text form is a "
              "sentence of the RFC 4512 grammar denoting it, hence parse (toText d) = d. The regular-expression match of from_string is modelled by a "
-             "deterministic scanner; that scanner is tied to the code by correspondence on generated, mutated and random strings.",
-        technique="Lean 4 proof (text form is a grammar sentence + C17) + correspondence",
+             "deterministic scanner which is PROVED equal to the compiled pattern (regenerated from the source with its named groups on every run; "
+             "backtracking semantics with captures): Props/TiesSchema.lean, parseX_is_pattern_then_post. Correspondence on generated, mutated, "
+             "long escape-heavy and random strings ties the rest.",
+        technique="Lean 4 proof (text form is a grammar sentence + C17; scanner = translated regex with captures) + translator + correspondence",
         ref="DESIGN.md §4 C16",
     ),
     "C17": dict(
         text="Lean theorems: the three RFC 4512 description grammars are transcribed as relations between a definition and a sentence (any WSP/SP "
              "counts, bare or parenthesised qdescrs/oids/qdstrings, \\5c or \\5C, X- or x-, explicit or omitted defaults, the quoted SYNTAX of Active "
              "Directory); every sentence parses to exactly the definition it denotes; totality over all strings is by construction in the model "
-             "(single error constructor) and is what the correspondence on mutated / random strings checks on the implementation.",
-        technique="Lean 4 proof (scanner vs grammar relation, part by part) + correspondence + generated-sentence search",
+             "(single error constructor) and is what the correspondence on mutated / random strings checks on the implementation. The scanner that "
+             "stands for PATTERN.match is proved equal, on acceptance and on every named group, to the backtracking semantics of the pattern "
+             "regenerated from schema.py (Props/TiesSchema.lean), and the match step is cross-checked three ways (CPython / translated pattern / scanner).",
+        technique="Lean 4 proof (scanner vs grammar relation; scanner = translated regex with captures) + translator + correspondence + generated-sentence search",
         ref="DESIGN.md §4 C17",
     ),
 })
@@ -196,9 +201,12 @@ CHECKS.update({
              "description patterns: 3; attribute pattern and NOIDLEN: 2; the rest: 0), every_pattern_bounded covers the regenerated list, sub_cost "
              "lifts to re.sub, and the pre-repair nested repetition is proved exponential. Each proof starts from an rfl equation between the "
              "regenerated term and named sub-expressions, so ANY change of a pattern breaks an obligation; the search (model step counts of pumped "
-             "inputs, timing of the real parser on adversarial families in a killable child) then decides. Not covered by a theorem: constants of "
-             "CPython's engine and the hand-written scanners (filter loops, receive re-parse) — those are timed only.",
-        technique="Lean 4 proof (cost calculus for backtracking search trees; per-pattern bounds on translated regexes) + translator + timing search",
+             "inputs, timing of the real parser on adversarial families in a killable child) then decides. The hand-written filter parser has a "
+             "counting model (Model/FilterCost.lean) proved to return the parser's result with at most one parser-function call per input byte plus "
+             "one (Props/C18Filter.lean); the call counts are compared exactly with the implementation's (profiler hook) and executed source lines "
+             "are checked against 100(n+1)^2+5000 on nested / wide / broken families (filter, schema post-processing, receive). Not covered by a "
+             "theorem: constants of CPython's engine, the receive loop and the schema post-processing (step-counted and timed only).",
+        technique="Lean 4 proof (cost calculus for backtracking search trees; per-pattern bounds on translated regexes; call-count bound of the filter parser) + translator + deterministic step counts + timing search",
         ref="DESIGN.md STATUS and §4 C18",
     ),
 })
